@@ -27,7 +27,7 @@ class MIADistinguisherMixin(_PartitionnedDistinguisherBaseMixin):
         for a, b in zip(bin_edges, bin_edges[1:]):
             if not a < b:
                 raise ValueError(f'bin_edges must be sorted, but {a} >= {b}.')
-        if _np.sum(_np.diff(_np.diff(bin_edges))) > 1e-9:
+        if _np.any(_np.abs(_np.diff(_np.diff(bin_edges))) > 1e-9):
             raise ValueError('bin_edges must be uniform (i.e with bins equally spaced.')
         self._bin_edges = bin_edges
         self.bins_number = len(bin_edges) - 1
